@@ -167,7 +167,7 @@ class Ctx:
 def pin_globals():
     import numpy as np
 
-    np.seterr(all='warn')
+    np.seterr(divide='warn', over='warn', under='ignore', invalid='warn')  # NumPy's own defaults
     warnings.resetwarnings()
     warnings.simplefilter('ignore')
     return list(warnings.filters), dict(np.geterr())
